@@ -60,6 +60,9 @@ func (e *Engine) VerifyFunc(con *Contract, workdir string, timeoutS int, all boo
 	ps := e.specs[con.Pkg]
 	fn := e.byKey[con.Pkg][con.Key]
 	key := shortPkg(con.Pkg) + "." + con.Key
+	if con.Canary {
+		key += "{canary}"
+	}
 	res := &UnitResult{Key: key, Tags: con.Tags, Canary: con.Canary, Trusted: con.Trusted, Bounded: con.Bounded}
 	if con.Trusted {
 		return res
@@ -90,6 +93,9 @@ func (e *Engine) VerifyFunc(con *Contract, workdir string, timeoutS int, all boo
 		}
 		sig := fn.Signature
 		idx := 0
+		if con.Implements != "" {
+			x.entryEnv["self"] = TV(x.w.Fresh("in.self", SInt))
+		}
 		if sig.Recv() != nil {
 			n := sig.Recv().Name()
 			if n == "" || n == "_" {
@@ -202,6 +208,9 @@ func (x *Exec) frameGoal(c string, now *Term) *Term {
 		conds = append(conds, App("<", SBool, r, x.alloc0))
 	}
 	for _, m := range x.modLocs[c] {
+		if m == nil {
+			return TTrue // the whole component is named in modifies
+		}
 		conds = append(conds, Not(Eq(r, m)))
 	}
 	return Forall([]*Term{r}, Imp(And(conds...), Eq(Select(now, r), Select(was, r))))
